@@ -5,7 +5,8 @@
    that the mirrored code contains is an explicit third outcome [OPanic] here, so that
    "this unwrap is never reached" is a statement about the model that can be proved or refuted.
 
-   Mirrors (as the code is, defects included):
+   Mirrors (as the code is at the current commit, i.e. after the fixes 8ac9d00, b4e6381, 601cdc3;
+   remaining defects included):
      A. database/query_language/parameter.rs  Variables::validate_params
         database/query_language/data_model_parser.rs  Field::get_variable_type
         database/query_language/mutation_parser.rs  parse_entity_internals (value typing),
@@ -264,7 +265,7 @@ Definition assemble_field (k : fkind) (fv : mfv) (ps : params) : outcome :=
   | Some p =>
       match field_type k with
       | FJson => match as_string p with
-                 | None => OPanic                    (* value.as_string().unwrap()  l.291 / l.294 *)
+                 | None => OOk                       (* a nullable Json field can be set to null: Value::Null *)
                  | Some s => if s_json s then OOk else OErr    (* serde_json::from_str(..)? *)
                  end
       | _ => match p with PFloat false => OErr | _ => OOk end   (* as_serde_json_value: InvalidFloat *)
@@ -330,15 +331,15 @@ Definition default_parallelism : N := 4.     (* Configuration::default().paralle
 
 Definition key_type_ed25519 : N := 1.
 
-(* security::import_verifying_key, checks in the order of the code: byte 0 is read first *)
+(* security::import_verifying_key, checks in the order of the code: the length, then byte 0 *)
 Definition import_key (k : list N) (point_ok : bool) : outcome :=
-  match k with
-  | [] => OPanic                                            (* veriying_key[0] *)
-  | b0 :: _ =>
-      if negb (N.eqb b0 key_type_ed25519) then OErr          (* InvalidKeyType *)
-      else if negb (Nat.eqb (List.length k) 33) then OErr         (* InvalidKeyLenght *)
-      else if point_ok then OOk else OErr                    (* VerifyingKey::from_bytes *)
-  end.
+  if negb (Nat.eqb (List.length k) 33) then OErr             (* InvalidKeyLenght *)
+  else match k with
+       | [] => OPanic                                        (* veriying_key[0] : not reachable, the length is 33 *)
+       | b0 :: _ =>
+           if negb (N.eqb b0 key_type_ed25519) then OErr      (* InvalidKeyType *)
+           else if point_ok then OOk else OErr                (* VerifyingKey::from_bytes *)
+       end.
 
 (* Ed2519VerifyingKey::verify *)
 Definition verify_sig (sig_len : N) (sig_ok : bool) : outcome :=
@@ -385,29 +386,6 @@ Definition ident_eqb (a b : ident) : bool := list_eqb N.eqb a b.
 
 Definition cp (s : string) : ident := map (fun a => N_of_ascii a) (list_ascii_of_string s).
 
-Definition is_ascii_digit (c : N) : bool := (N.leb 48 c && N.leb c 57)%bool.
-Definition lower (c : N) : N := if (N.leb 65 c && N.leb c 90)%bool then (c + 32)%N else c.
-
-(* words the engine (SQLite as bundled, sqlite3_keyword_name) does not accept as a bare table
-   alias; the other keywords fall back to identifiers.  The correspondence run re-checks every
-   keyword of the linked engine against this table on every run. *)
-Definition sql_reserved : list ident := map cp
-  ["indexed"; "index"; "escape"; "check"; "foreign"; "add"; "as"; "select"; "table"; "left";
-   "then"; "deferrable"; "else"; "delete"; "or"; "isnull"; "intersect"; "notnull"; "not"; "null";
-   "except"; "transaction"; "on"; "natural"; "alter"; "raise"; "exists"; "constraint"; "into";
-   "set"; "having"; "inner"; "references"; "unique"; "outer"; "between"; "nothing"; "group";
-   "default"; "case"; "collate"; "create"; "current_date"; "join"; "insert"; "distinct"; "is";
-   "update"; "values"; "when"; "where"; "and"; "drop"; "autoincrement"; "to"; "in"; "cast";
-   "commit"; "cross"; "current_timestamp"; "current_time"; "from"; "full"; "limit"; "order";
-   "returning"; "right"; "union"; "using"; "all"; "primary"]%string.
-
-(* does the engine's tokenizer/parser take [a] as a table alias when spliced unquoted *)
-Definition alias_ok (a : ident) : bool :=
-  match a with
-  | [] => false
-  | c :: _ => negb (is_ascii_digit c) && negb (N.eqb c 36)          (* 36 = '$' : variable token *)
-              && negb (existsb (ident_eqb (map lower a)) sql_reserved)
-  end.
 
 (* data model, as far as queries need it *)
 Inductive dkind :=
@@ -570,8 +548,10 @@ Fixpoint resolve_query (dm : dmodel) (qs : list rentity) (names : list ident) : 
       end
   end.
 
-(* statement skeleton emitted by query.rs: SELECT keywords, parentheses, unquoted alias splices;
-   everything else (quoted keys, json paths, bound parameters, fixed keywords) is TX *)
+(* statement skeleton emitted by query.rs: SELECT keywords, parentheses, table aliases (spliced
+   double-quoted since 601cdc3: any identifier the grammar delivers is a legal quoted SQL identifier,
+   it cannot contain a double quote); everything else (quoted keys, json paths, bound parameters, fixed
+   keywords) is TX *)
 Inductive tok := TSel | TL | TR | TAl (a : ident) | TX.
 
 (* get_fields / get_exists_query / get_sub_group_array / get_sub_entity_query for one selected
@@ -585,7 +565,7 @@ Fixpoint emit (parent : ident) (c : cfield) {struct c} : list tok * list tok :=
   | CScalar true false _ => ([TX; TAl parent; TX], [])            (* 'k', P.col *)
   | CScalar false _ true => ([TX; TL; TX; TR], [])                (* 'k',Ifnull(_json->'$.n',d) *)
   | CScalar false _ false => ([TX], [])                           (* 'k',_json->'$.n' *)
-  | CJsonSel true => ([TX; TL; TX], [])                           (* 'k', Ifnull(sel,d      sic, query.rs:528 *)
+  | CJsonSel true => ([TX; TL; TX; TR], [])                       (* 'k', Ifnull(sel,d) *)
   | CJsonSel false => ([TX], [])
   | CSub key arr nl subs =>
       let parts := map (emit key) subs in
@@ -609,8 +589,7 @@ Definition emit_entity (c : centity) : list tok :=
   ++ (match ce_search c with Some _ => [TX] | None => [] end)
   ++ [TR].
 
-(* what the engine needs of the skeleton: parentheses balance (never closing below zero),
-   every unquoted alias is a legal, non-reserved identifier *)
+(* what the engine needs of the skeleton: parentheses balance (never closing below zero) *)
 Fixpoint balance (d : Z) (ts : list tok) : option Z :=
   match ts with
   | [] => Some d
@@ -620,8 +599,7 @@ Fixpoint balance (d : Z) (ts : list tok) : option Z :=
   end.
 Definition balanced (ts : list tok) : bool :=
   match balance 0 ts with Some 0 => true | _ => false end.
-Definition tok_alias_ok (t : tok) : bool := match t with TAl a => alias_ok a | _ => true end.
-Definition wf_sql (ts : list tok) : bool := balanced ts && forallb tok_alias_ok ts.
+Definition wf_sql (ts : list tok) : bool := balanced ts.
 
 Definition count_tok (p : tok -> bool) (ts : list tok) : N := nlen (filter p ts).
 Definition is_sel (t : tok) := match t with TSel => true | _ => false end.
@@ -640,7 +618,7 @@ Fixpoint counts (c : cfield) {struct c} : c3 * c3 :=
   | CScalar true false _ => ((0, 0, 0)%N, (0, 0, 0)%N)
   | CScalar false _ true => ((0, 1, 1)%N, (0, 0, 0)%N)
   | CScalar false _ false => ((0, 0, 0)%N, (0, 0, 0)%N)
-  | CJsonSel true => ((0, 1, 0)%N, (0, 0, 0)%N)
+  | CJsonSel true => ((0, 1, 1)%N, (0, 0, 0)%N)
   | CJsonSel false => ((0, 0, 0)%N, (0, 0, 0)%N)
   | CSub key arr nl subs =>
       let parts := map counts subs in
